@@ -59,13 +59,25 @@ impl TestCase {
     /// outcome in regards to exit code and (STDOUT) output, or return an
     /// [`TestCaseError`]
     pub fn validate(&self, output: &Output) -> Result<()> {
-        if let ExitStatus::Code(exit_code) = output.exit_code {
-            let expected = self.exit_code.unwrap_or(0);
-            if exit_code != expected {
-                return Err(TestCaseError::InvalidExitCode {
-                    actual: exit_code,
-                    expected,
-                });
+        match output.exit_code {
+            ExitStatus::Code(exit_code) => {
+                let expected = self.exit_code.unwrap_or(0);
+                if exit_code != expected {
+                    return Err(TestCaseError::InvalidExitCode {
+                        actual: exit_code,
+                        expected,
+                    });
+                }
+            }
+            // detached executions have neither an exit code nor output to validate
+            ExitStatus::Detached => {}
+            // an execution that did not end in an exit code is never a success
+            ExitStatus::Timeout(_) => return Err(TestCaseError::Timeout),
+            ExitStatus::Skipped => return Err(TestCaseError::Skipped),
+            ExitStatus::Unknown => {
+                return Err(TestCaseError::InternalError(anyhow::anyhow!(
+                    "execution ended without an exit code"
+                )));
             }
         }
         let diff_tool = DiffTool::new(self.expectations.clone());
